@@ -83,7 +83,7 @@ def run(eng, tier):
         ('empty-quotes', 'L', lambda e: isf(e, ('val', ISEMPTY(m('supported_quote_denoms')), True))), ('empty-executors', 'L', lambda e: isf(e, ('val', ISEMPTY(m('executors')), True))),
         ('half-fee-pair', 'L', lambda e: e['fact'] is not None and e['fact'][0] == 'is' and e['fact'][1] in (m('ask_fee_account'), m('bid_fee_account'), m('ask_fee_rate'), m('bid_fee_rate'))),
         ('precision-above-18', 'L', lambda e: isf(e, ('val', LT(I(18), m('price_precision')), True))),
-        ('increment-below-1', 'L', lambda e: isf(e, ('val', LT(m('size_increment'), I(1)), True))),
+        ('increment-below-1', 'L', lambda e: is_sign(e['fact'], m('size_increment'), 'zero')),
         ('invalid-address', 'L', addr_err),
         ('rate-unparsable', 'L', lambda e: e['fact'] is not None and e['fact'][0] == 'is' and e['fact'][2] == 'Err' and e['fact'][1][0] == 'rcall' and e['fact'][1][1] == 'from_str'),
         ('increment-not-multiple', 'L', lambda e: isf(e, ('val', EQ(I(0), REM(m('size_increment'), ('pow', I(10), m('price_precision')))), False))),
